@@ -76,6 +76,7 @@ inline void crash_handler(int sig) {
 struct Harness {
   std::string id, tier = "quick", out, variant = "";
   long shard = 0, nshards = 1, only = -1;
+  long stride = 1;  // execute only every stride-th case of this shard (auxiliary slow detectors, e.g. under valgrind)
   long seed = 0;
   double deadline_s = 1e18;
   long idx = -1;          // global case number (same in every shard)
@@ -103,6 +104,7 @@ struct Harness {
       else if (a == "--out") out = val();
       else if (a == "--case") only = atol(val().c_str());
       else if (a == "--seed") seed = atol(val().c_str());
+      else if (a == "--stride") stride = std::max(1L, atol(val().c_str()));
       else if (a == "--deadline") deadline_s = atof(val().c_str());
       else if (a == "--variant") variant = val();
       else if (a.rfind("--", 0) == 0) args[a.substr(2)] = val();
@@ -121,6 +123,7 @@ struct Harness {
     if (capped) return false;
     if (only >= 0) return idx == only;
     if (idx % nshards != shard) return false;
+    if (stride > 1 && (idx / nshards) % stride != 0) return false;
     if ((evaluations & 0xff) == 0 && elapsed() > deadline_s) {
       capped = true;
       return false;
